@@ -79,6 +79,13 @@ func c16Recipe(seed int64) *poolRecipe {
 		return geojson.NewPolygon(geometry.NewPoly(b70, nil, &geometry.IndexOptions{Kind: geometry.RTree, MinPoints: 1}))
 	})
 	add("LineString-200", func() geojson.Object { return geojson.NewLineString(geometry.NewLine(b200, nil)) })
+	b1200 := big(320, 7)
+	add("Polygon-320(rtree, multi-level)", func() geojson.Object {
+		return geojson.NewPolygon(geometry.NewPoly(b1200, nil, &geometry.IndexOptions{Kind: geometry.RTree, MinPoints: 64}))
+	})
+	add("LineString-260(rtree)", func() geojson.Object {
+		return geojson.NewLineString(geometry.NewLine(b1200[:260], &geometry.IndexOptions{Kind: geometry.RTree, MinPoints: 1}))
+	})
 	add("Polygon-moved", func() geojson.Object { return geojson.NewPolygon(geometry.NewPoly(b70, nil, nil).Move(3, -2)) })
 	var many []geometry.Point
 	for i := 0; i < 100; i++ {
